@@ -55,11 +55,21 @@ def evOfJson (j : Json) : Except String Ev := do
 inductive DEv where
   | ev (e : Ev)
   | finish (c : Nat)
+  | register (c : Nat)   -- the caller registers its channel, where that is a step of its own (no-op where the insert comes first)
 
 def devOfJson (j : Json) : Except String DEv := do
   match ← getStr j "e" with
   | "finish" => pure (.finish (← getNat j "c"))
+  | "register" => pure (.register (← getNat j "c"))
   | _ => pure (.ev (← evOfJson j))
+
+/-- does the issuing function of the client table keyed this way insert before it sends? (`int64`: the stdio client table,
+    otherwise the legacy SSE client table) -/
+def insertFirst (k : KeyKind) : Bool :=
+  let name := match k with | .int64 => t!"stdio_client.pendingRequests" | _ => t!"sse_client.responses"
+  match Mcp.Gen.pdTables.find? (·.name = name) with
+  | some t => t.insertBeforeSend
+  | none => false
 
 def outcomeStr : Outcome → String
   | .answer b => s!"answer:{b}"
@@ -100,15 +110,22 @@ def handle (op : String) (j : Json) : Except String Json := do
     let k ← kindOfStr (← getStr j "kind")
     let start ← getNat j "start"
     let evs ← (← getArr j "evs").toList.mapM devOfJson
+    -- the region of the family the issuing function of this table is in (regenerated fact)
+    let ins := insertFirst k
     let rec go (s : St) (idx : Nat) : List DEv → St × Option Nat
       | [] => (s, none)
-      | .ev e :: es => match step k s e with
+      | .ev e :: es => match step k ins s e with
+        | none => (s, some idx)
+        | some s' => go s' (idx + 1) es
+      | .register c :: es =>
+        if ins then go s (idx + 1) es else
+        match step k ins s (.register c) with
         | none => (s, some idx)
         | some s' => go s' (idx + 1) es
       | .finish c :: es =>
-        match step k s (.complete c) with
+        match step k ins s (.complete c) with
         | some s' => go s' (idx + 1) es
-        | none => match step k s (.cancel c) with
+        | none => match step k ins s (.cancel c) with
           | some s' => go s' (idx + 1) es
           | none => (s, some idx)
     let (s, dis) := go (init start) 0 evs
